@@ -178,11 +178,12 @@ def classify(hist, cls, obs, want_states, init):
     eff = obs.get("effbad") or []
     rep_ok = any(canon(obs.get("rep")) == canon(w) and canon(obs.get("file")) == canon(w) for w in want_states)
     # The deprecated enable call was the last thing that touched safe search in this process (no restart, no settings call since),
-    # everything is reported and written as it should be, and the only contradiction is that nothing is rewritten.  (It shows at
-    # the call itself, or later when DNS probing becomes possible again.)
+    # everything is reported and written as it should be, and the only contradiction is what is rewritten: the running engine still
+    # has the rules it was last built with (none after a start with safe search off).  (It shows at the call itself, or later when
+    # DNS probing becomes possible again.)
     touching = [l for l in hist if l["op"] in ("ss_enable", "restart", "crash", "crashduring") or (l["op"] == "set" and l.get("c") == "ss")]
     if (touching and touching[-1]["op"] == "ss_enable" and cls in ("ok", "rej") and rep_ok and eff and not obs.get("err")
-            and all(e.startswith('ss="') and "saw bing=false google=false" in e for e in eff)):
+            and all(e.startswith('ss="') for e in eff)):
         return "safesearch-enable-not-in-effect-until-restart"
     # G07's finding seen from here: a list added after a restart within the same second got the id of a list that was already
     # there (two lists with one id in the file, or the start-up warning about it), so one list file holds the other's rules.
